@@ -100,12 +100,20 @@ type worker struct {
 }
 
 type tailBuffer struct {
-	mu  sync.Mutex
-	buf []byte
+	mu   sync.Mutex
+	head []byte
+	buf  []byte
 }
 
 func (t *tailBuffer) Write(p []byte) (int, error) {
 	t.mu.Lock()
+	if len(t.head) < 6000 {
+		n := 6000 - len(t.head)
+		if n > len(p) {
+			n = len(p)
+		}
+		t.head = append(t.head, p[:n]...)
+	}
 	t.buf = append(t.buf, p...)
 	if len(t.buf) > 1<<17 {
 		t.buf = t.buf[len(t.buf)-(1<<16):]
@@ -117,6 +125,9 @@ func (t *tailBuffer) Write(p []byte) (int, error) {
 func (t *tailBuffer) String() string {
 	t.mu.Lock()
 	defer t.mu.Unlock()
+	if len(t.buf) > len(t.head) && len(t.buf) >= 1<<16 {
+		return string(t.head) + "\n[...]\n" + string(t.buf)
+	}
 	return string(t.buf)
 }
 
@@ -147,6 +158,7 @@ func startWorker(bin string, cfgText string, race bool) (*worker, error) {
 	if race {
 		cmd.Env = append(cmd.Env, "GORACE=halt_on_error=1 exitcode=66")
 	}
+	cmd.Env = append(cmd.Env, extraWorkerEnv...)
 	stdin, _ := cmd.StdinPipe()
 	stdout, _ := cmd.StdoutPipe()
 	w := &worker{cmd: cmd, stdin: stdin, out: bufio.NewReaderSize(stdout, 1<<20), stderr: &tailBuffer{}, cfgDir: dir, done: make(chan struct{})}
@@ -246,7 +258,15 @@ func (d *jobDeath) Error() string {
 	if d.timeout {
 		return "worker produced no result within the wall-clock limit (possible CPU wedge)"
 	}
-	return fmt.Sprintf("worker died (exit %d): %s", d.exit, lastLines(d.stderr, 30))
+	return fmt.Sprintf("worker died (exit %d): %s\n[...]\n%s", d.exit, firstLines(d.stderr, 25), lastLines(d.stderr, 12))
+}
+
+func firstLines(s string, n int) string {
+	lines := strings.Split(s, "\n")
+	if len(lines) > n {
+		lines = lines[:n]
+	}
+	return strings.Join(lines, "\n")
 }
 
 func lastLines(s string, n int) string {
